@@ -296,6 +296,43 @@ def main():
 ''', hostile=True)
 
 
+P('exc_chain', '''
+import sys, traceback
+DATA = {}
+def low(x):
+    if x > 1:
+        raise KeyError('low %d' % x)
+    return x
+def mid(x):
+    try:
+        return low(x)
+    except KeyError as e:
+        seen = sys.exc_info()[0].__name__
+        DATA['seen'] = seen
+        raise ValueError('mid wraps') from e
+def ctx(x):
+    try:
+        return low(x)
+    except KeyError:
+        depth = len(traceback.extract_tb(sys.exc_info()[2]))
+        DATA['depth'] = depth
+        raise RuntimeError('while handling')
+def main():
+    kept = None
+    try:
+        mid(2)
+    except ValueError as e:
+        kept = e
+        DATA['cause'] = type(e.__cause__).__name__
+    try:
+        ctx(3)
+    except RuntimeError as e:
+        DATA['context'] = type(e.__context__).__name__
+    out('exc_chain', DATA['cause'], DATA['context'])
+    raise kept
+''')
+
+
 P('observed_access', '''
 DATA = {}
 class AuditedSettings(dict):
